@@ -241,4 +241,70 @@ func extractC16(f *facts) {
 		})
 	}
 	f.def("c16HTTPTargeterHead", "List (List Nat)", leanBytesList(httpHead))
+
+	// --- the commands' decoder assembly (file.go decoder(files)) ---
+	// the statements of the loop over the files (an `if` whose body ends in a return is written
+	// "if <cond> return"), the number of continue / break / goto statements in the function, the
+	// decoder it returns, and the "no file argument means stdin" statement of each command
+	c16FileDecoder(f)
+}
+
+func c16FileDecoder(f *facts) {
+	loop := []string{}
+	jumps := 0
+	ret := ""
+	if fd := funcDecl(f.parse("file.go"), "", "decoder"); fd != nil && fd.Body != nil {
+		for _, st := range fd.Body.List {
+			switch x := st.(type) {
+			case *ast.RangeStmt:
+				for _, b := range x.Body.List {
+					if is, ok := b.(*ast.IfStmt); ok {
+						src := "if " + c19Src(f, is.Cond)
+						if is.Init != nil {
+							src = "if " + c19Src(f, is.Init) + "; " + c19Src(f, is.Cond)
+						}
+						if n := len(is.Body.List); n > 0 && is.Else == nil {
+							if _, ok := is.Body.List[n-1].(*ast.ReturnStmt); ok {
+								src += " return"
+							}
+						}
+						loop = append(loop, src)
+					} else {
+						loop = append(loop, c19Src(f, b))
+					}
+				}
+			case *ast.ForStmt:
+				loop = append(loop, "<for>")
+			case *ast.ReturnStmt:
+				if len(x.Results) > 0 {
+					ret = c19Src(f, x.Results[0])
+				}
+			}
+		}
+		ast.Inspect(fd, func(n ast.Node) bool {
+			if _, ok := n.(*ast.BranchStmt); ok {
+				jumps++
+			}
+			return true
+		})
+	}
+	f.def("c16FileDecoderLoop", "List (List Nat)", leanBytesList(loop))
+	f.def("c16FileDecoderJumps", "Nat", strconv.Itoa(jumps))
+	f.def("c16FileDecoderReturns", "List Nat", leanBytes(ret))
+	defaults := []string{}
+	for _, name := range []string{"encode.go", "report.go", "plot.go"} {
+		found := "<none>"
+		ast.Inspect(f.parse(name), func(n ast.Node) bool {
+			is, ok := n.(*ast.IfStmt)
+			if !ok || found != "<none>" {
+				return true
+			}
+			if c19Src(f, is.Cond) == "len(files) == 0" && len(is.Body.List) == 1 && is.Else == nil {
+				found = c19Src(f, is.Body.List[0])
+			}
+			return true
+		})
+		defaults = append(defaults, found)
+	}
+	f.def("c16CommandsDefaultInput", "List (List Nat)", leanBytesList(defaults))
 }
